@@ -1,5 +1,6 @@
 //! epverif — property-based testing / fuzzing harness deciding the 17 etherparse properties.
 pub mod engine;
+pub mod fuzzapi;
 pub mod gen;
 pub mod guard;
 pub mod obs;
